@@ -1136,7 +1136,7 @@ def rule_enumpaths(m):
                                 for t in region_atoms(f, tt, n['i']):
                                     if t[0] == 'bin' and t[1] == '==' and {t[2], t[3]} == {cur, src}:
                                         pb = [x for x in f.nodes if x['k'] == 'CXXMemberCallExpr' and 'callee' in x and
-                                              u.decl(x['callee'])['name'] == 'push_back' and tt.t(x['obj']) == cl and
+                                              u.decl(x['callee'])['name'] in ('push_back', 'emplace_back') and tt.t(x['obj']) == cl and
                                               tt.t(x['args'][0]) == dest and f.region(x['i']) == f.region(n['i']) and
                                               f.can_reach_forward(x['i'], n['i'])]
                                         if pb and (tt.t(n['args'][0]) == cl or f.can_reach_forward(kids[0][2], n['i'])):
